@@ -166,22 +166,25 @@ def lex (s : String) : List PTok := attach (lexAux (s.toList.length + 1) s.toLis
 
 /-- the tokens of a value in the vocabulary of `OptionText`: a word before `:` is a field name,
 every other word, number or string a scalar; a sign joins the scalar that follows -/
-def valueToks : List PTok → Option (List OptionText.Tok)
+def valueToksK : List Tok → Option (List OptionText.Tok)
   | [] => some []
-  | ⟨.sym '{', _, _⟩ :: r => (valueToks r).map (.lbrace :: ·)
-  | ⟨.sym '}', _, _⟩ :: r => (valueToks r).map (.rbrace :: ·)
-  | ⟨.sym '[', _, _⟩ :: r => (valueToks r).map (.lbrack :: ·)
-  | ⟨.sym ']', _, _⟩ :: r => (valueToks r).map (.rbrack :: ·)
-  | ⟨.sym ',', _, _⟩ :: r => (valueToks r).map (.comma :: ·)
-  | ⟨.sym ':', _, _⟩ :: r => (valueToks r).map (.colon :: ·)
-  | ⟨.ident k, _, _⟩ :: ⟨.sym ':', _, _⟩ :: r => (valueToks r).map (.ident k :: .colon :: ·)
-  | ⟨.sym '-', _, _⟩ :: ⟨.ident s, _, _⟩ :: r => (valueToks r).map (.scalar ("-" ++ s) :: ·)
-  | ⟨.sym '-', _, _⟩ :: ⟨.num s, _, _⟩ :: r => (valueToks r).map (.scalar ("-" ++ s) :: ·)
-  | ⟨.ident s, _, _⟩ :: r => (valueToks r).map (.scalar s :: ·)
-  | ⟨.num s, _, _⟩ :: r => (valueToks r).map (.scalar s :: ·)
-  | ⟨.str s, _, _⟩ :: r => (valueToks r).map (.scalar s :: ·)
-  | ⟨.sym _, _, _⟩ :: _ => none
-  | ⟨.eof, _, _⟩ :: _ => none
+  | .sym '{' :: r => (valueToksK r).map (.lbrace :: ·)
+  | .sym '}' :: r => (valueToksK r).map (.rbrace :: ·)
+  | .sym '[' :: r => (valueToksK r).map (.lbrack :: ·)
+  | .sym ']' :: r => (valueToksK r).map (.rbrack :: ·)
+  | .sym ',' :: r => (valueToksK r).map (.comma :: ·)
+  | .sym ':' :: r => (valueToksK r).map (.colon :: ·)
+  | .ident k :: .sym ':' :: r => (valueToksK r).map (.ident k :: .colon :: ·)
+  | .sym '-' :: .ident s :: r => (valueToksK r).map (.scalar ("-" ++ s) :: ·)
+  | .sym '-' :: .num s :: r => (valueToksK r).map (.scalar ("-" ++ s) :: ·)
+  | .ident s :: r => (valueToksK r).map (.scalar s :: ·)
+  | .num s :: r => (valueToksK r).map (.scalar s :: ·)
+  | .str s :: r => (valueToksK r).map (.scalar s :: ·)
+  | .sym _ :: _ => none
+  | .eof :: _ => none
+
+/-- … of located tokens: lines and comments play no part -/
+def valueToks (ts : List PTok) : Option (List OptionText.Tok) := valueToksK (ts.map (·.tok))
 
 /-- the tokens of a value: up to the first `stop` outside all brackets -/
 def takeValue (stop : Char → Bool) : List PTok → Nat → List PTok × List PTok
